@@ -139,6 +139,7 @@ pub fn registry() -> Vec<H> {
     v.extend(life::harnesses());
     v.extend(life::harnesses_long());
     v.extend(life::harnesses_alloc());
+    v.extend(life::harnesses_serde());
     v.extend(more::harnesses());
     v.extend(more::harnesses_long());
     v.extend(codecs::harnesses());
